@@ -814,15 +814,27 @@ func countedLoop(info *types.Info, loop ast.Stmt) (ast.Expr, bool) {
 		}
 	case *ast.ForStmt:
 		as, ok := x.Init.(*ast.AssignStmt)
-		if !ok || len(as.Lhs) != 1 || len(as.Rhs) != 1 {
+		if !ok || len(as.Lhs) != len(as.Rhs) {
 			return nil, false
 		}
-		iv := prog.IdentObj(info, as.Lhs[0])
 		cond, _ := ast.Unparen(x.Cond).(*ast.BinaryExpr)
 		inc, _ := x.Post.(*ast.IncDecStmt)
-		if iv == nil || cond == nil || inc == nil || prog.IdentObj(info, cond.X) != iv || prog.IdentObj(info, inc.X) != iv {
+		if cond == nil || inc == nil {
 			return nil, false
 		}
+		// the counter is the header variable the condition tests; other header variables
+		// (for i, cursor := 0, 0; ...) do not matter for the iteration count
+		iv := prog.IdentObj(info, cond.X)
+		k := -1
+		for i, l := range as.Lhs {
+			if iv != nil && prog.IdentObj(info, l) == iv {
+				k = i
+			}
+		}
+		if k < 0 || prog.IdentObj(info, inc.X) != iv {
+			return nil, false
+		}
+		as = &ast.AssignStmt{Lhs: []ast.Expr{as.Lhs[k]}, Rhs: []ast.Expr{as.Rhs[k]}, Tok: as.Tok, TokPos: as.TokPos}
 		constIs := func(e ast.Expr, v string) bool {
 			tv, ok := info.Types[e]
 			return ok && tv.Value != nil && tv.Value.String() == v
